@@ -301,6 +301,8 @@ func c08(c *Ctx) {
 	// ---- handoff ----
 	ho := "litefs.(*Store).Handoff"
 	lh := p.Calls("litefs.Lease.Handoff")
+	c.Guarded("handoff/request/node-id-nonzero", "http.(*Server).handlePostHandoff", p.PlainCalls("litefs.(*Store).Handoff"), gs(G(`^\(0 == litefs\.ParseNodeID\(.*"nodeID"\)\)#0\)$`, false)), 1,
+		"the handoff endpoint never asks the store to hand off to node id 0", "F51: a stream opened without a node id is recorded as node 0; a handoff to it gives the lease to a client that cannot take it and demotes the primary")
 	c.ExpectAll("handoff/same-node", c.CallArgs(ho, lh, 2), "p2", 1, "the node handed to is the requested one", "")
 	{
 		cl := c.anonWith(ho, p.Calls("litefs.(*Store).changeSetSubscriberByNodeID"))
